@@ -16,6 +16,7 @@ import (
 	"bytes"
 	"fmt"
 	"testing"
+	"time"
 
 	"github.com/mycoria/mycoria/frame"
 	"github.com/mycoria/mycoria/state"
@@ -538,6 +539,30 @@ func c02Check(c *core.Case, sp *c02Spec, bitsPerByte int) {
 			c.Fatalf("%s changed the delivered payload", what)
 		}
 		accepts++
+	}
+
+	// An hour and more of use: the routers look the session up by address for
+	// every frame, time passes in steps of 25 minutes, the session cleaner runs
+	// after each step. A session in use stays, and with it its keys.
+	if c.Chance("hours-of-use", 1, 6) {
+		for k := 0; k < 4; k++ {
+			p.a.St.VerifAgeSessions(25 * time.Minute)
+			p.b.St.VerifAgeSessions(25 * time.Minute)
+			sA, sB := p.a.St.GetSession(p.b.ID.Addr.IP), p.b.St.GetSession(p.a.ID.Addr.IP)
+			if sA != p.sAB || sB != p.sBA {
+				c.Fatalf("after %d minutes of use the lookup by address returns another session object", 25*(k+1))
+			}
+			w2, err := c02Seal(sp, sb, p)
+			if err != nil {
+				c.Fatalf("seal after %d minutes of use: %v", 25*(k+1), err)
+			}
+			if _, perr, uerr := c02Unseal(rb, sp.offR, sp.ovR, w2, sB); perr != nil || uerr != nil {
+				c.Fatalf("after %d minutes of use a frame does not unseal: parse=%v unseal=%v", 25*(k+1), perr, uerr)
+			}
+			p.a.St.VerifCleanSessions()
+			p.b.St.VerifCleanSessions()
+		}
+		c.Class("hours-of-use-with-cleaner-ticks")
 	}
 
 	// A key setup that fails (the other side offers a key-exchange share the
